@@ -425,12 +425,18 @@ def gen_derive_input_src(rng, x, mistakes=0, fixed_attrs=None, body_kind=None):
         g = list(g.values())[0]
     if isinstance(g, str) and g in EBY:
         tp = g
-    if tp:
+    if tp and rng.random() < 0.8:
         _, tsrc = gen_type_param_src(rng, tp, mistakes if rng.random() < 0.3 else 0)
         generics = rng.choice(["<%s>", "<'a, %s>", "<%s, const N: usize>", "<'a, %s, U: Copy>"]) % tsrc.strip()
+    elif tp:
+        generics = rng.choice(["", "", "<'a>"])          # a mirrored generics member over an item without type parameters
     else:
         generics = rng.choice(GENERICS)
-    where = rng.choice(WHERES) if "T" in generics else ""
+    if "T" in generics:
+        where = rng.choice(WHERES)
+    else:
+        # a where-clause does not need a parameter list
+        where = rng.choice(["", "", " where u32: Copy", " where Self: Sized, String: Clone"] + ([" where 'a: 'static"] if "'a" in generics else []))
     vconv = fconv = None
     if x["data"] and "data" in x["data"]:
         vconv, fconv = x["data"]["data"]
